@@ -7,7 +7,8 @@
     every state reachable by any interleaving of clock ticks, calls and
     micro-steps (one storage request or clock read) of any number of clients. *)
 From Coq Require Import ZArith NArith List.
-From LS Require Import Lease.Store Lease.Client Lease.Sched Lease.Proofs Lease.Examples.
+From LS Require Import Lease.Store Lease.Client Lease.Sched Lease.Proofs Lease.Examples Lease.GenTie.
+From LS Require Gen.Scalar.
 Import ListNotations.
 Open Scope Z_scope.
 
@@ -134,3 +135,9 @@ Theorem gen_after_release_refuted :
       ~ gen_strict (st_log s).
 Proof. exact Proofs.gen_after_release_refuted. Qed.
 Print Assumptions gen_after_release_refuted.
+
+(** The model's expiry test is the one regenerated from leaser.go (Lease.IsExpired). *)
+Theorem is_expired_matches_source :
+  forall (now : Z) (l : lease), Gen.Scalar.Lease_IsExpired (l_exp l) now = is_expired now l.
+Proof. exact GenTie.is_expired_matches_source. Qed.
+Print Assumptions is_expired_matches_source.
